@@ -66,6 +66,12 @@ def cases(draw, path):
     rest = rest_sig(sig, nfix, pkw)
     b = draw(S.bindings(rest, vals))
     others = draw(st.lists(S.bindings(rest, vals), max_size=3))
+    # an ignore specification (by name, '*', '**') in effect: equivalent spellings must still share a key, also when the ignored argument is a
+    # default that one spelling omits and the other spells out
+    ignore = None
+    if draw(st.integers(0, 3)) == 0:
+        names = [n for n in rest['req']] + [n for n, _ in rest['opt']] + list(rest['kwreq']) + [n for n, _ in rest['kwopt']] + [n for n, _ in pkw] + ['*', '**'] + S.XKW[:2]
+        ignore = draw(st.lists(st.sampled_from(names), min_size=1, max_size=3, unique=True))
     km = draw(st.sampled_from(KEYMAPS))
     if path == 'call':
         # std caches need hashable keys; safe caches take anything
@@ -74,7 +80,7 @@ def cases(draw, path):
         module = draw(st.sampled_from(['std', 'safe']))
     return {'sig': sig, 'kind': kind, 'nfix': nfix, 'fixed': [draw(vals) for _ in range(nfix)], 'pkw': pkw, 'binding': b, 'others': others,
             'form1': draw(st.integers(0, 255)), 'form2': draw(st.integers(0, 255)), 'keymap': km, 'path': path,
-            'module': module, 'algo': draw(st.sampled_from(['inf', 'lru', 'lfu', 'mru', 'rr'] + H.DISPATCHED)), 'tol': tol, 'deep': deep}
+            'module': module, 'algo': draw(st.sampled_from(['inf', 'lru', 'lfu', 'mru', 'rr'] + H.DISPATCHED)), 'tol': tol, 'deep': deep, 'ignore': ignore}
 
 
 def stable_spec(spec, tol):
@@ -155,6 +161,11 @@ def run_case(case):
     if case.get('tol') is not None and path != '_keygen':
         tkw = {'tol': case['tol'], 'deep': bool(case.get('deep'))}
         classes.append('tol:%r' % case['tol'])
+    ig = tuple(case.get('ignore') or ())
+    gkw = dict(tkw)              # klepto.keygen takes the ignore selectors positionally
+    if ig:
+        tkw = dict(tkw, ignore=ig)
+        classes.append('ignore_in_effect')
     try:
         if path == 'fkey' or path == 'call':
             dec = H.decorator_class(case['module'], case['algo'])(keymap=km, **tkw)
@@ -191,22 +202,22 @@ def run_case(case):
                         a1, k1, a2, k2, n2, info, f.key(*a1, **k1), f.key(*a2, **k2))))
                 classes.append('call_usable:%s' % usable)
         elif path == 'keygen':
-            kg = klepto.keygen(keymap=km, **tkw)(target)
+            kg = klepto.keygen(*ig, keymap=km, **gkw)(target)
             for oa, ok in others[:2]:
                 kg(*oa, **ok)
             key1 = kg(*a1, **k1)
             for oa, ok in others[2:]:
                 kg(*oa, **ok)
             key2 = kg(*a2, **k2)
-            key3 = klepto.keygen(keymap=km, **tkw)(build_target(case, [])[0])(*a2, **k2)
+            key3 = klepto.keygen(*ig, keymap=km, **gkw)(build_target(case, [])[0])(*a2, **k2)
         else:
             for oa, ok in others[:2]:
-                klepto._keygen(target, (), *oa, **ok)
-            x1 = klepto._keygen(target, (), *a1, **k1)
+                klepto._keygen(target, ig, *oa, **ok)
+            x1 = klepto._keygen(target, ig, *a1, **k1)
             for oa, ok in others[2:]:
-                klepto._keygen(target, (), *oa, **ok)
-            x2 = klepto._keygen(target, (), *a2, **k2)
-            x3 = klepto._keygen(build_target(case, [])[0], (), *a2, **k2)
+                klepto._keygen(target, ig, *oa, **ok)
+            x2 = klepto._keygen(target, ig, *a2, **k2)
+            x3 = klepto._keygen(build_target(case, [])[0], ig, *a2, **k2)
             key3 = km(*x3[0], **x3[1])
             key1, key2 = km(*x1[0], **x1[1]), km(*x2[0], **x2[1])
     except Exception as e:
@@ -252,7 +263,7 @@ def shape(sig):
     return (len(sig['req']), len(sig['opt']), bool(sig['varargs']), len(sig['kwreq']), len(sig['kwopt']), bool(sig['varkw']))
 
 
-REQUIRED_CLASSES = ['tol:0', 'tol:1', 'differs_beyond_kw_order', 'kw_order_differs', 'kind:method', 'kind:partial', 'path:call', 'path:keygen', 'path:_keygen', 'path:fkey']
+REQUIRED_CLASSES = ['ignore_in_effect', 'tol:0', 'tol:1', 'differs_beyond_kw_order', 'kw_order_differs', 'kind:method', 'kind:partial', 'path:call', 'path:keygen', 'path:_keygen', 'path:fkey']
 
 EXCLUDED = {'float defaults that change under the rounding tolerance (finding D19, probed)': 'replaced by their rounded value'}
 
